@@ -1,4 +1,5 @@
 import RpmVerif.Model.Getters
+import RpmVerif.Model.Compression
 import RpmVerif.Gen.FileDigestLen
 /-!
 # L3: metadata accessors of `PackageMetadata` (src/rpm/package.rs)
@@ -96,12 +97,34 @@ def getInstalledSize (h : Header) : Out Nat :=
   | .ok v => .ok v
   | _ => getU32 h IndexTag.RPMTAG_SIZE
 
-/-- `get_payload_compressor`: absent → "none"; otherwise `CompressionType::from_str` on the text.
+/-- a text of the scraped compression tables (code points, all ASCII — `C12.compressor_names_ascii`) as the bytes
+of the Rust `&str` -/
+def textBytes (s : List Nat) : Bytes := s.map Nat.toUInt8
+
+/-- the texts `CompressionType::from_str` accepts (`Gen.compressionFromStr`, regenerated from
+src/rpm/compressor.rs on every run), as bytes -/
+def compressorNames : List Bytes := compressionFromStr.map fun p => textBytes p.1
+
+/-- what `Display` prints for the variant `get_payload_compressor` answers when the tag is absent
+(`Gen.payloadCompressorDefault`, scraped from src/rpm/package.rs) -/
+def compressorDefaultName : Bytes := textBytes (Compression.toStr payloadCompressorDefault)
+
+/-- `get_payload_compressor`: absent → `CompressionType::None`; otherwise `CompressionType::from_str` on the text.
 Returns the compressor's display name. -/
 def getPayloadCompressor (knownNames : List Bytes) (h : Header) : Out Bytes :=
   match getString h IndexTag.RPMTAG_PAYLOADCOMPRESSOR with
   | .ok s => if knownNames.contains s then .ok s else .err "compressor"
-  | .err "notfound" => .ok [110, 111, 110, 101]
+  | .err "notfound" => .ok compressorDefaultName
+  | .err c => .err c
+  | .panic s => .panic s
+
+/-- `get_payload_compressor` with its real result type: the `CompressionType` variant (declaration index,
+`variant as usize`).  `CompressionType::from_str` compares the text with ASCII literals, so a text with a byte
+≥ 128 matches none of them — as here, where such a byte becomes a number no table entry contains. -/
+def getPayloadCompressorVariant (h : Header) : Out Nat :=
+  match getString h IndexTag.RPMTAG_PAYLOADCOMPRESSOR with
+  | .ok s => Compression.fromStr (s.map UInt8.toNat)
+  | .err "notfound" => .ok payloadCompressorDefault
   | .err c => .err c
   | .panic s => .panic s
 
